@@ -153,6 +153,24 @@ func (in *Inst) docCall(api interface{}, c *spec.Call) (res Result) {
 		}
 		target = d
 	}
+	// a call whose (only) value is null is made once for every kind of null: nil and nil pointers
+	isNull := func(raw json.RawMessage) bool { v, _ := DocValue(raw); return v == nil }
+	if (c.Op == "put" && isNull(c.V)) || ((c.Op == "ins" || c.Op == "upd") && len(c.Vals) == 1 && isNull(c.Vals[0])) {
+		res.Err = true
+		for _, nv := range NullValues() {
+			var err errors.OrdaError
+			switch c.Op {
+			case "put":
+				_, err = target.PutToObject(c.K, nv)
+			case "ins":
+				_, err = target.InsertToArray(c.Pos, nv)
+			default:
+				_, err = target.UpdateManyInArray(c.Pos, nv)
+			}
+			res.Err = res.Err && !isNilErr(err)
+		}
+		return
+	}
 	switch c.Op {
 	case "put":
 		v, _ := DocValue(c.V)
